@@ -56,8 +56,8 @@ def series_pow_half_inv(s, order):
 
 CLASSES = {
     "pp": [("ph", 1, 1), ("pphh", 2, 2), ("ppphhh", 3, 3)],
-    "ip": [("h", 1, 0), ("hhp", 2, 1)],
-    "ea": [("p", 0, 1), ("pph", 1, 2)],
+    "ip": [("h", 1, 0), ("hhp", 2, 1), ("hhhpp", 3, 2)],
+    "ea": [("p", 0, 1), ("pph", 1, 2), ("ppphh", 2, 3)],
     "dip": [("hh", 2, 0), ("hhhp", 3, 1)],
     "dea": [("pp", 0, 2), ("ppph", 1, 3)],
 }
